@@ -3217,7 +3217,8 @@ lyd_find_sibling_dup_inst_set(const struct lyd_node *siblings, const struct lyd_
 
     LY_CHECK_RET(ly_set_new(set));
 
-    if (!siblings || (siblings->schema && (lysc_data_parent(siblings->schema) != lysc_data_parent(target->schema)))) {
+    if (!siblings || (siblings->schema && target->schema &&
+            (lysc_data_parent(siblings->schema) != lysc_data_parent(target->schema)))) {
         /* no data or schema mismatch */
         return LY_ENOTFOUND;
     }
@@ -3229,7 +3230,7 @@ lyd_find_sibling_dup_inst_set(const struct lyd_node *siblings, const struct lyd_
     siblings = lyd_first_sibling(siblings);
 
     parent = siblings->parent;
-    if (parent && parent->schema && parent->children_ht) {
+    if (target->schema && parent && parent->schema && parent->children_ht) {
         assert(target->hash);
 
         /* find the first instance */
